@@ -154,6 +154,41 @@ def gen_program(rng, big=False):
                 for p in c["params"]:
                     if rng.random() < 0.12:
                         p[1] = ""
+    if rng.random() < 0.3:
+        prog = share_prefix_sets(rng, prog)
+    return prog
+
+
+def share_prefix_sets(rng, prog):
+    """reuse the prefix set of an ip()/sip() condition verbatim under the OTHER address role (values permuted, one
+    duplicated: canonicalizePrefixes makes them equal again), so that the builder's lpmDedup gives both match-sets ONE
+    trie index; the boundary probes then have source inside / destination outside the set and vice versa.
+    (self-contained: C01's generator can apply the same post-processing)"""
+    ipconds = [(ri, ci) for ri, r in enumerate(prog["rules"]) for ci, c in enumerate(r["conds"]) if c["kind"] in ("ip", "sip")]
+    if not ipconds:
+        vals = [list(c01.gen_value(rng, "ip")) for _ in range(rng.choice([1, 1, 2, 3]))]
+        for kv in vals:
+            kv[0] = ""
+        prog["rules"].insert(rng.randint(0, len(prog["rules"])),
+                             {"conds": [{"kind": rng.choice(["ip", "sip"]), "neg": False, "params": vals}], "out": c01.gen_outbound(rng, prog["groups"])})
+        ipconds = [(ri, ci) for ri, r in enumerate(prog["rules"]) for ci, c in enumerate(r["conds"]) if c["kind"] in ("ip", "sip")]
+    for _ in range(rng.choice([1, 1, 2])):
+        ri, ci = rng.choice(ipconds)
+        src = prog["rules"][ri]["conds"][ci]
+        vals = [list(kv) for kv in src["params"]]
+        rng.shuffle(vals)
+        if rng.random() < 0.5:
+            vals.append(list(rng.choice(vals)))
+        twin = {"kind": "sip" if src["kind"] == "ip" else "ip", "neg": rng.random() < 0.3, "params": vals}
+        r = rng.random()
+        if r < 0.35:      # same rule: sip(S) && [!]ip(S)
+            prog["rules"][ri]["conds"].insert(rng.randint(0, len(prog["rules"][ri]["conds"])), twin)
+        elif r < 0.8:     # a rule of its own right after (or before) the original
+            prog["rules"].insert(ri + rng.choice([0, 1]), {"conds": [twin], "out": c01.gen_outbound(rng, prog["groups"])})
+        else:             # into some other rule
+            rj = rng.randrange(len(prog["rules"]))
+            prog["rules"][rj]["conds"].append(twin)
+        ipconds = [(a, b) for a, r2 in enumerate(prog["rules"]) for b, c in enumerate(r2["conds"]) if c["kind"] in ("ip", "sip")]
     return prog
 
 
